@@ -14,7 +14,9 @@ from typing import Any
 from . import rs2py
 from .rsrt import Panic
 
-LIB = '/repo/rust/src/lib.rs'
+from .paths import REPO
+
+LIB = f'{REPO}/rust/src/lib.rs'
 
 HARNESS = r'''
 // ---- appended by vf/rscheck.py ----
@@ -241,12 +243,12 @@ def corpus(n_random: int = 2500, seed: int = 20260925) -> list[tuple]:
     out: list[tuple] = []
     shipped = []
     for base in ('propositional', 'small_theory', 'substitution'):
-        t = tuple(list(open(f'/repo/proofs/{base}.ml-{s}', 'rb').read()) for s in ('gamma', 'claim', 'proof'))
+        t = tuple(list(open(f'{REPO}/proofs/{base}.ml-{s}', 'rb').read()) for s in ('gamma', 'claim', 'proof'))
         shipped.append(t)
         out.append(t)
     import glob
 
-    for gpath in sorted(glob.glob('/repo/proofs/generated-from-k/*/*.ml-gamma')):
+    for gpath in sorted(glob.glob(f'{REPO}/proofs/generated-from-k/*/*.ml-gamma')):
         b = gpath[: -len('.ml-gamma')]
         if os.path.exists(b + '.ml-proof'):
             out.append(tuple(list(open(b + s, 'rb').read()) for s in ('.ml-gamma', '.ml-claim', '.ml-proof')))
@@ -312,7 +314,7 @@ def _src_hash() -> str:
     import hashlib
 
     h = hashlib.sha1()
-    for f in ('/repo/rust/src/lib.rs', '/repo/rust/src/main.rs'):
+    for f in (f'{REPO}/rust/src/lib.rs', f'{REPO}/rust/src/main.rs'):
         h.update(open(f, 'rb').read())
     return h.hexdigest()[:16]
 
